@@ -1298,3 +1298,78 @@ def guard_says_nonempty(g, a):
         if other is not None and other.get('k') == 'str' and other.get('v') == '':
             return op == '!=' and k == 0
     return False
+
+
+VA_CONSUMERS = {'vsnprintf', 'vsprintf', 'vfprintf', 'vprintf', 'vasprintf', 'vdprintf', 'vsyslog', 'vsscanf', 'vfscanf', 'vscanf', '__vsnprintf_chk', '__vfprintf_chk', '__vsprintf_chk', '__vprintf_chk', '__vasprintf_chk'}
+
+
+def va_list_once(P, R, rule, what='variable argument lists'):
+    """A va_list that a consumer (the v*printf family, or a function of ours that hands it to one) has walked is
+    indeterminate: it may not be walked, copied or passed on again - whoever needs the arguments twice takes a va_copy
+    BEFORE the first use.  Forward typestate per function over its va_list variables (fresh / spent); our own functions
+    are summarised by whether they spend their va_list parameter (one that only va_copy's it does not)."""
+    def is_va(t):
+        return 'va_list' in (t or '')
+    fns = [f for f in P.fns.values() if not f.unit.startswith('tests/')]
+    spends = {}      # (fn key, param index) -> bool
+    changed = True
+    cand = {}
+    for f in fns:
+        for i, p_ in enumerate(f.param_info):
+            if is_va(p_.get('t')):
+                cand[(f.key, i)] = (f, p_['name'])
+                spends[(f.key, i)] = False
+    def call_spends(f, s, v):
+        """does call site s spend variable v?"""
+        c = s.ev.get('callee')
+        idx = [i for i, a in enumerate(s.ev['args']) if is_var(a, v)]
+        if not idx:
+            return False
+        if c in ('__builtin_va_copy', '__builtin_va_start', '__builtin_va_end', 'va_copy', 'va_start', 'va_end'):
+            return False
+        if c in VA_CONSUMERS:
+            return True
+        ts = P.callees(s, True)
+        if not ts:
+            return True        # unknown external taking a va_list: assume it walks it
+        return any(spends.get((t.key, i), False) for t in ts for i in idx)
+    while changed:
+        changed = False
+        for (k, i), (f, v) in cand.items():
+            if spends[(k, i)]:
+                continue
+            if any(call_spends(f, s, v) for s in f.calls()):
+                spends[(k, i)] = True
+                changed = True
+    n = 0
+    for f in fns:
+        vs = {p_['name'] for p_ in f.param_info if is_va(p_.get('t'))}
+        for s in f.sites():
+            if s.ev['k'] == 'decl' and is_va(s.ev.get('t')):
+                vs.add(s.ev['var'])
+        if not vs:
+            continue
+        for v in sorted(vs):
+            def on_event(st, s, v=v):
+                if s.ev['k'] != 'call':
+                    return st
+                c = s.ev.get('callee')
+                a = s.ev['args']
+                if c in ('__builtin_va_start', 'va_start') and a and is_var(a[0], v):
+                    return 'fresh'
+                if c in ('__builtin_va_copy', 'va_copy') and a and is_var(a[0], v):
+                    return 'fresh'
+                if call_spends(f, s, v):
+                    return 'spent'
+                return st
+            before, _, _, _ = f.forward('fresh' if v in f.params else 'none', on_event)
+            for s in f.calls():
+                if not any(is_var(a, v) for a in s.ev['args']):
+                    continue
+                c = s.ev.get('callee')
+                if c in ('__builtin_va_end', 'va_end') or (c in ('__builtin_va_start', 'va_start', '__builtin_va_copy', 'va_copy') and is_var(s.ev['args'][0], v)):
+                    continue
+                sts = before.get(s.key, set())
+                n += 1
+                R.ob(rule, 'spent' not in sts, s, '%s: the argument list %s handed to %s has not been walked before on any path (states: %s)' % (f.name, v, c or 'a callback', sorted(sts)), key='va:%s:%s:%s' % (f.name, v, c))
+    R.floor(rule, 4, what)
